@@ -151,6 +151,7 @@ def node_where(nw):
 
 def rec_where(w, seed):
   W = lib()[5]
+  if w[0] == 2: return lambda xs: xs[::2]          # a plain function: converted to where.Lambda
   return W.ALL if w[0] == 0 else W.Any(k=w[1], seed=seed)
 
 class Builder:
@@ -683,7 +684,8 @@ def gen_selector(rng):
   return [k, gen_n(rng)]
 
 def gen_where(rng):
-  return [0] if rng.random() < 0.6 else [1, rng.choice([0, 1, 1, 2, 3])]
+  r = rng.random()
+  return [0] if r < 0.5 else [2] if r < 0.62 else [1, rng.choice([0, 1, 1, 2, 3])]
 
 def gen_mutator(rng):
   return [rng.randint(0, 1), rng.choice([NW_ALL, NW_ALL, NW_ALL, [1, 0, 0], [0, 1, 0]])]
@@ -741,9 +743,9 @@ def prim_catalog():
   for n in ([0, 0], [0, 1], [0, 2], [0, 5], [1, 1, 1], [1, 3, 2], [2]):
     sels += [[0, n, 0], [0, n, 1], [1, n, 0], [1, n, 1], [2, n, 0], [2, n, 1], [3, n, 0], [3, n, 1], [4, n, 0], [4, n, 1], [5, n], [6, n]]
   muts = [[m, w] for m in (0, 1) for w in (NW_ALL, [1, 0, 0], [0, 1, 0])]
-  recs = [[0, kd, w, wf] for kd in range(4) for w in ([0], [1, 1], [1, 2]) for wf in (0, 1)]
+  recs = [[0, kd, w, wf] for kd in range(4) for w in ([0], [1, 1], [1, 2], [2]) for wf in (0, 1)]
   recs2 = [[1, k] for k in (1, 2, 3)] + [[2, c] for c in ([], [1], [1, 2], [2, 1], [0, 9])] + \
-          [[3, pk, w] for pk in range(3) for w in ([1, 1], [0], [1, 2])]
+          [[3, pk, w] for pk in range(3) for w in ([1, 1], [0], [1, 2], [2])]
   return [P([0, s]) for s in sels], [P([1, m]) for m in muts], [P([2, r]) for r in recs], [P([2, r]) for r in recs2]
 
 def _perm(n, loc): return C(n, [E] * n, True, False, loc)
